@@ -27,7 +27,7 @@ def run(ctx):
     lib_gate.gate(ctx, P, only={"tsk_table_collection_simplify", "simplifier_init"})
     funcs = {"simplifier_init"}
     seen = lib_guards.analyse(ctx, P, funcs=funcs)
-    lib_guards.presence(ctx, seen, funcs=funcs)
+    lib_guards.presence(ctx, seen, funcs=funcs, P=P)
     lib_py.kw_forward(ctx, py, mods=("trees", "tables"), only=ps)
     lib_py.unused_params(ctx, py, mods=("trees", "tables"), only=ps)
     lib_py.ll_positional(ctx, py, P, only=ps)
